@@ -57,10 +57,10 @@ def stepConc (ts : List String) : Option String :=
   | ["conc", progs, sched] => do
       let ps := (progs.splitOn ",").map fun p => if p = "-" then [] else p.toList
       if ps.isEmpty || ps.length > 4 then none else
-      if ps.any (fun p => p.any (fun c => !("cabmnrqsuv".toList.contains c))) then none else
+      if ps.any (fun p => p.any (fun c => !("cabmnrqsuvQwxyzCKABM".toList.contains c))) then none else
       let sc ← Drv.natCsv sched
       let s0 := CSt.start true ps
-      let fuel := 6 * ((ps.map List.length).foldl (· + ·) 0 + 2 * ps.length) + 8
+      let fuel := 8 * ((ps.map List.length).foldl (· + ·) 0 + 3 * ps.length) + 8
       let (s, ev, k) := runSched true fuel s0 sc 0 0 []
       let evs := if ev.isEmpty then "-" else " ".intercalate ev
       match s.err with
